@@ -34,3 +34,8 @@ CLAIMED["C10"] = {
     "note": "The failed-proof half (BackwardEngine::query leaves the facts untouched) is NOT covered. Locks transparent (single-threaded). Trusted: rsym + library model, z3, reference model. Bounded in K.",
 }
 NA.pop("C10", None)
+CLAIMED["C15"] = {
+    "text": "Sequential clause only: bounded symbolic model checking of the real KnowledgeBase: every history of K operations (add with ANY i32 salience, remove, enable/disable, clear; symbolic names) against a reference; after every operation get_rule (presence, name, most-recently-added salience, enabled flag), listing order (descending salience, insertion order among equals, each rule once), index view, names, count, duplicate rejection without effect and version growth are SMT obligations.",
+    "note": "The concurrent / linearizability half is NOT covered (locks transparent, no thread model). Stable-sort model for sort_by_key/sort_by. Trusted: rsym + library model, z3, reference model. Bounded in K.",
+}
+NA.pop("C15", None)
